@@ -325,6 +325,27 @@ fn features_of(q: &[u8], hits: &mut [bool; 11]) {
 /// Up to `per_feature` message counters per feature among `cands` candidates (8-byte big-endian
 /// counters as messages), searched on all cores.
 pub fn grind_structured(h: HashId, cands: u64, per_feature: usize) -> Vec<(String, Vec<u8>)> {
+    // in rounds of 2^28 candidates, until every feature has its hits or `cands` are used up (the
+    // result depends only on the candidate order, not on thread timing)
+    let round: u64 = 1 << 28;
+    let mut acc: Vec<(String, Vec<u8>)> = Vec::new();
+    let mut from = 0u64;
+    while from < cands {
+        let to = (from + round).min(cands);
+        acc.extend(grind_structured_range(h, from, to, per_feature));
+        from = to;
+        if FEATURES.iter().all(|f| acc.iter().filter(|(n, _)| n == f).count() >= per_feature) {
+            break;
+        }
+    }
+    let mut out = Vec::new();
+    for f in FEATURES {
+        out.extend(acc.iter().filter(|(n, _)| n == f).take(per_feature).cloned());
+    }
+    out
+}
+
+fn grind_structured_range(h: HashId, from: u64, cands: u64, per_feature: usize) -> Vec<(String, Vec<u8>)> {
     use sha2::Digest;
     use sha3::digest::{ExtendableOutput, Update, XofReader};
     let m = Model::rfc(h);
@@ -351,7 +372,7 @@ pub fn grind_structured(h: HashId, cands: u64, per_feature: usize) -> Vec<(Strin
                 Digest::update(&mut sha_base, prefix);
                 let mut shake_base = sha3::Shake256::default();
                 shake_base.update(prefix);
-                let mut i = k;
+                let mut i = from + k;
                 while i < cands {
                     if h.is_shake() {
                         let mut x = shake_base.clone();
@@ -392,19 +413,64 @@ pub fn grind_structured(h: HashId, cands: u64, per_feature: usize) -> Vec<(Strin
     out
 }
 
+/// `vcheck struct-corpus`: the long search (every hash, until an aligned zero word is found), written
+/// to vectors/structured_messages.json. The file only saves search time: every entry is re-checked
+/// against the model digest before use, and a fresh shorter search runs in every check anyway.
+pub fn write_structured_corpus(verif_dir: &std::path::Path) {
+    let mut all = Vec::new();
+    for h in crate::hashid::ALL_HASHES {
+        let cands: u64 = if h.is_shake() { 1 << 33 } else { 1 << 35 };
+        for (feature, msg) in grind_structured(h, cands, 2) {
+            all.push(serde_json::json!({"hash": h, "feature": feature, "msg": crate::gen::hex(&msg)}));
+        }
+        eprintln!("struct-corpus: {} done ({} entries so far)", h.name(), all.len());
+    }
+    let doc = serde_json::json!({"seed_tag": STRUCT_SEED_TAG, "q": STRUCT_Q, "messages": all});
+    std::fs::write(verif_dir.join("vectors/structured_messages.json"), serde_json::to_string_pretty(&doc).unwrap()).expect("write corpus");
+}
+
+fn stored_structured(ctx: &Ctx) -> Vec<(HashId, String, Vec<u8>)> {
+    let p = ctx.verif_dir.join("vectors/structured_messages.json");
+    let mut out = Vec::new();
+    if let Ok(text) = std::fs::read_to_string(&p) {
+        if let Ok(v) = serde_json::from_str::<serde_json::Value>(&text) {
+            if v["seed_tag"].as_u64() == Some(STRUCT_SEED_TAG) && v["q"].as_u64() == Some(STRUCT_Q as u64) {
+                for e in v["messages"].as_array().cloned().unwrap_or_default() {
+                    if let (Ok(h), Some(f), Some(m)) = (serde_json::from_value::<HashId>(e["hash"].clone()), e["feature"].as_str(), e["msg"].as_str()) {
+                        out.push((h, f.to_string(), unhex(m)));
+                    }
+                }
+            }
+        }
+    }
+    out
+}
+
 /// All structured-digest cases of a tier: every hash x every feature found x all four W.
 pub fn structured_cases(ctx: &Ctx) -> Vec<StructCase> {
     let mut out = Vec::new();
+    let stored = stored_structured(ctx);
+    for (h, feature, msg) in &stored {
+        for w in [1u32, 2, 4, 8] {
+            out.push(StructCase { hash: *h, w, feature: feature.clone(), msg: crate::gen::Hex(msg.clone()) });
+        }
+    }
     for h in crate::hashid::ALL_HASHES {
         // the aligned zero word needs about 2^32 / (n/4) candidates: SHA-256/32 in the quick tier,
         // every hash in the thorough tier
+        // the fresh search: enough for every feature but the aligned zero word (about 2^32 / (n/4)
+        // candidates; those come from the stored corpus) in the quick tier
+        let have_zero_word = stored.iter().any(|(sh, f, _)| *sh == h && f == "zero-word-aligned");
         let cands: u64 = match (ctx.quick(), h) {
-            (true, HashId::Sha256_256) => 1 << 30,
+            (true, HashId::Sha256_256) if !have_zero_word => 1 << 33,
             (true, _) => 1 << 24,
-            (false, x) if x.is_shake() => 1 << 30,
-            (false, _) => 1 << 32,
+            (false, x) if x.is_shake() => 1 << 31,
+            (false, _) => 1 << 34,
         };
         for (feature, msg) in grind_structured(h, cands, 2) {
+            if stored.iter().any(|(sh, _, sm)| *sh == h && *sm == msg) {
+                continue;
+            }
             for w in [1u32, 2, 4, 8] {
                 out.push(StructCase { hash: h, w, feature: feature.clone(), msg: crate::gen::Hex(msg.clone()) });
             }
